@@ -181,43 +181,42 @@ func (c *Ctx) c16Identity(pe *pluginEnv, u uiCfg, kind string, out []byte, hdr [
 	c.count("identity-" + kind)
 }
 
-
 func checkC16(c *Ctx) {
 	c.rule = "a scripted plugin executable on a private PATH plays a byte script and records what it receives. ALL conversations of <= 2 (quick) / 3 (thorough) messages over ~28 message variants per machine (each command valid, wrong arity, index 1/-0/+0/00/x, empty body, 100-byte body, repeated; unknown commands; UI commands msg/request-secret/request-public/confirm with 0-3 arguments and bad base64; malformed framing; end of output at every point), + random longer ones, with all UI callbacks present; every UI command x every combination of {absent, failing, answering} callbacks. Compared: the bytes the client sent (grease masked) and the result class/payload. distinct_nontrivial = distinct (machine, UI, script) cases."
 	pe := setupPluginEnv()
 	defer pe.close()
 	body48 := strings.Repeat("QUJD", 16) + "\n\n"
 	rAlpha := map[string]string{
-		"rs-ok":         "-> recipient-stanza 0 X25519 abc\nQUJD\n",
-		"rs-ok2":        "-> recipient-stanza 0 other\n\n",
-		"rs-full-body":  "-> recipient-stanza 0 t a b\n" + body48,
-		"rs-idx1":       "-> recipient-stanza 1 X25519 abc\nQUJD\n",
-		"rs-idx-neg0":   "-> recipient-stanza -0 X25519 abc\nQUJD\n",
-		"rs-idx-plus0":  "-> recipient-stanza +0 X25519 abc\nQUJD\n",
-		"rs-idx-00":     "-> recipient-stanza 00 X25519 abc\nQUJD\n",
-		"rs-idx-x":      "-> recipient-stanza x X25519 abc\nQUJD\n",
-		"rs-idx-big":    "-> recipient-stanza 99999999999999999999 X25519 abc\nQUJD\n",
-		"rs-one-arg":    "-> recipient-stanza 0\n\n",
-		"rs-no-arg":     "-> recipient-stanza\n\n",
-		"labels":        "-> labels a b\n\n",
-		"labels-empty":  "-> labels\n\n",
-		"error":         "-> error internal\nYm9vbQ\n",
-		"error-nobody":  "-> error\n\n",
-		"done":          "-> done\n\n",
-		"done-args":     "-> done extra\nQUJD\n",
-		"unknown":       "-> frobnicate 1 2\nQUJD\n",
-		"msg":           "-> msg\naGVsbG8\n",
-		"req-secret":    "-> request-secret\ncGlu\n",
-		"req-public":    "-> request-public\ncGlu\n",
-		"confirm1":      "-> confirm eWVz\ncHJvbXB0\n",
-		"confirm2":      "-> confirm eWVz bm8\ncHJvbXB0\n",
-		"confirm0":      "-> confirm\ncHJvbXB0\n",
-		"confirm3":      "-> confirm eWVz bm8 bm8\ncHJvbXB0\n",
+		"rs-ok":          "-> recipient-stanza 0 X25519 abc\nQUJD\n",
+		"rs-ok2":         "-> recipient-stanza 0 other\n\n",
+		"rs-full-body":   "-> recipient-stanza 0 t a b\n" + body48,
+		"rs-idx1":        "-> recipient-stanza 1 X25519 abc\nQUJD\n",
+		"rs-idx-neg0":    "-> recipient-stanza -0 X25519 abc\nQUJD\n",
+		"rs-idx-plus0":   "-> recipient-stanza +0 X25519 abc\nQUJD\n",
+		"rs-idx-00":      "-> recipient-stanza 00 X25519 abc\nQUJD\n",
+		"rs-idx-x":       "-> recipient-stanza x X25519 abc\nQUJD\n",
+		"rs-idx-big":     "-> recipient-stanza 99999999999999999999 X25519 abc\nQUJD\n",
+		"rs-one-arg":     "-> recipient-stanza 0\n\n",
+		"rs-no-arg":      "-> recipient-stanza\n\n",
+		"labels":         "-> labels a b\n\n",
+		"labels-empty":   "-> labels\n\n",
+		"error":          "-> error internal\nYm9vbQ\n",
+		"error-nobody":   "-> error\n\n",
+		"done":           "-> done\n\n",
+		"done-args":      "-> done extra\nQUJD\n",
+		"unknown":        "-> frobnicate 1 2\nQUJD\n",
+		"msg":            "-> msg\naGVsbG8\n",
+		"req-secret":     "-> request-secret\ncGlu\n",
+		"req-public":     "-> request-public\ncGlu\n",
+		"confirm1":       "-> confirm eWVz\ncHJvbXB0\n",
+		"confirm2":       "-> confirm eWVz bm8\ncHJvbXB0\n",
+		"confirm0":       "-> confirm\ncHJvbXB0\n",
+		"confirm3":       "-> confirm eWVz bm8 bm8\ncHJvbXB0\n",
 		"confirm-badb64": "-> confirm eWV=\ncHJvbXB0\n",
 		"confirm-bad-no": "-> confirm eWVz !!!\ncHJvbXB0\n",
-		"junk":          "not a stanza\n",
-		"half":          "-> recipient-stanza 0 X25519 abc\nQUJ",
-		"bad-body":      "-> msg\n====\n",
+		"junk":           "not a stanza\n",
+		"half":           "-> recipient-stanza 0 X25519 abc\nQUJ",
+		"bad-body":       "-> msg\n====\n",
 	}
 	iAlpha := map[string]string{}
 	for k, v := range rAlpha {
